@@ -159,7 +159,7 @@ namespace occa {
 
     for (udim_t i = 0; i < bytes; ++i) {
       for (int j = 0; j < 8; ++j) {
-        h[j] = (h[j] * p[j]) ^ c[i];
+        h[j] = ((int) (((unsigned int) h[j]) * ((unsigned int) p[j]))) ^ c[i];
       }
     }
     hash.initialized = true;
